@@ -246,6 +246,43 @@ def run(ctx):
                                          "shape_map": sm, **pipeline.case_json(g, cfgd)})
                 except Exception as e:
                     viol.append({"what": "SHACL with disjunctions not parseable: %s" % str(e)[:120], "shacl": text, **pipeline.case_json(g, cfgd)})
+    # every document a Shaper emits, not only its first: one object asked several times (thresholds and formats varying between the calls);
+    # each ShExC answer must define every label once and close its references, each SHACL answer must declare what it points to
+    stats["repeated_call_documents"] = 0
+    for (g, cfg) in cases[: (50 if ctx.tier == "quick" else 800)]:
+        kw = impl.shaper_kwargs(cfg)
+        grid = gen.threshold_grid(g, cfg['inst_prop'])
+        try:
+            sh_ = _ShO(raw_graph=to_nt(g), input_format=_CO.NT, **kw)
+            for step in range(rng.randint(2, 4)):
+                th = rng.choice(grid)
+                fmt = _CO.SHEXC if rng.random() < 0.75 else _CO.SHACL_TURTLE
+                text, hung = impl.guarded(lambda: sh_.shex_graph(string_output=True, acceptance_threshold=th[0] / th[1], output_format=fmt))
+                if hung:
+                    viol.append({"what": "repeated call did not return", **pipeline.case_json(g, dict(cfg, th=th))})
+                    break
+                stats["repeated_call_documents"] += 1
+                if fmt == _CO.SHEXC:
+                    nv = len(viol)
+                    check_shexc(text, g, dict(cfg, th=th), kf, reproduced, viol)
+                    for v_ in viol[nv:]:
+                        v_["what"] = "call %d on one Shaper: %s" % (step + 1, v_["what"])
+                else:
+                    p_ = shacl_text.parse(text)
+                    if len(p_['declared']) != len(set(p_['declared'])):
+                        viol.append({"what": "call %d on one Shaper: SHACL node shape declared twice" % (step + 1), "shacl": text, **pipeline.case_json(g, dict(cfg, th=th))})
+                    for o in p_['sh_node_objects']:
+                        if o not in p_['declared']:
+                            fid = F.match(kf, {"kind": "dangling_reference", "ref": o, "cfg": dict(cfg, th=th), "triples": g})
+                            if fid:
+                                reproduced.add(fid)
+                            else:
+                                viol.append({"what": "call %d on one Shaper: sh:node object is not a declared sh:NodeShape" % (step + 1), "object": o,
+                                             "shacl": text, **pipeline.case_json(g, dict(cfg, th=th))})
+        except Exception as e:
+            obs = {"kind": "crash", "exc": type(e).__name__, "cfg": cfg, "triples": g}
+            if not F.match(kf, obs):
+                viol.append({"what": "repeated calls on one Shaper: %s %s" % (type(e).__name__, str(e)[:120]), **pipeline.case_json(g, cfg)})
     # inputs that declare prefixes of their own (Turtle read by rdflib): the declarations of the document are merged into the
     # prefix map after the shapes prefix was chosen, so they can collide with it or with the caller's prefixes
     from shexer.shaper import Shaper as _Sh
